@@ -134,11 +134,15 @@ def want_matrix(rows, ncols):
     return W, nanrow
 
 
-def bad_rows(M, W, nanrow):
-    """indices of rows of M that are not (all-NaN where expected | within tolerance of W elsewhere)"""
+def bad_rows(M, W, nanrow, dead=None):
+    """indices of rows of M that are not (all-NaN where expected | within tolerance of W elsewhere).
+    dead: mask of columns whose basis function is identically zero (empty support); there a 0 is accepted in a NaN row"""
     if M.shape[1] == 0 or M.shape[0] == 0:
         return []
-    isn = np.isnan(M).all(axis=1)
+    if dead is not None and dead.any() and not dead.all():
+        isn = np.isnan(M[:, ~dead]).all(axis=1) & (np.isnan(M[:, dead]) | (M[:, dead] == 0)).all(axis=1)
+    else:
+        isn = np.isnan(M).all(axis=1)
     scale = np.maximum(1.0, np.abs(W).max(axis=1))
     with np.errstate(invalid="ignore"):
         okv = (np.abs(M - W) <= TOL * scale[:, None]).all(axis=1)
@@ -255,7 +259,9 @@ def bs_rows_findings(M, x, t, degree, extrap, icpt, phase):
     """compare every row; at most one finding per (phase, failure class), carrying the first failing point"""
     W, nanrow, inside = bs_want(t, degree, extrap, icpt, tuple(x))
     out, seen = [], set()
-    for r in bad_rows(M, W, nanrow):
+    # basis functions whose knots all coincide (a df-quantile knot on a boundary) are identically zero
+    dead = np.array([t[i] == t[i + degree + 1] for i in range(0 if icpt else 1, len(t) - degree - 1)], dtype=bool)
+    for r in bad_rows(M, W, nanrow, dead):
         v = x[r]
         if v is None:
             sig = "bs-null-row-not-nan"
